@@ -41,8 +41,8 @@ def Listener_Handshake : List String := ["io.ReadFull", "io.ReadFull", "conn.Wri
 def Listener_Handshake_lits : List Nat := [2, 0, 0, 1, 0, 4, 0, 0, 1, 3, 4, 1, 0, 16, 2]
 def Listener_SendError : List String := ["conn.Write"]
 def Listener_SendError_lits : List Nat := [0, 0, 0, 0, 0, 0, 0]
-def SocksAdapter_handleHandshake : List String := ["io.ReadAtLeast", "io.ReadFull", "conn.Write", "s.handlePasswordAuth"]
-def SocksAdapter_handleHandshake_lits : List Nat := [257, 2, 0, 1, 2, 2, 2, 2]
+def SocksAdapter_handleHandshake : List String := ["io.ReadFull", "io.ReadFull", "conn.Write", "s.handlePasswordAuth"]
+def SocksAdapter_handleHandshake_lits : List Nat := [2, 0, 1]
 def SocksAdapter_handlePasswordAuth : List String := ["io.ReadFull", "io.ReadFull", "io.ReadFull", "io.ReadFull", "conn.Write"]
 def SocksAdapter_handlePasswordAuth_lits : List Nat := [2, 0, 1, 1, 1, 0, 0, 1, 1]
 def SocksAdapter_handleRequest : List String := ["io.ReadFull", "s.sendReply", "io.ReadFull", "io.ReadFull", "io.ReadFull", "io.ReadFull", "s.sendReply", "io.ReadFull"]
